@@ -493,14 +493,17 @@ def decodeHuffmanSlow (src : Bytes) (fuel : Nat) (st : St) : M St :=
 
 /-! ## decode_blocks -/
 
+/-- `while this.n_bits < 3 { b0 = read; this.bits |= b0 << (this.n_bits & 3); this.n_bits = (this.n_bits & 3) + 8 }`
+    (one pass is enough: afterwards `n_bits ≥ 8`) -/
+def fillHeader (src : Bytes) (st : St) : M St :=
+  if st.nBits < 3 then do
+    let (b0, st) ← readU8 src st
+    .ok { st with bits := st.bits ||| (b0 <<< (st.nBits &&& 3)), nBits := (st.nBits &&& 3) + 8 }
+  else .ok st
+
 /-- one iteration of `while.outer final == 0`: the block header bits and the block; returns `final` -/
 def decodeBlock (src : Bytes) (st : St) : M (Nat × St) := do
-  -- `while this.n_bits < 3 { b0 = read; this.bits |= b0 << (this.n_bits & 3); this.n_bits = (this.n_bits & 3) + 8 }`
-  let st ←
-    if st.nBits < 3 then do
-      let (b0, st) ← readU8 src st
-      .ok { st with bits := st.bits ||| (b0 <<< (st.nBits &&& 3)), nBits := (st.nBits &&& 3) + 8 }
-    else (.ok st : M St)
+  let st ← fillHeader src st
   let final := st.bits &&& 1
   let type := (st.bits >>> 1) &&& 3
   let st := { st with bits := st.bits >>> 3, nBits := st.nBits - 3 }
